@@ -806,8 +806,9 @@ func (tx *OngoingTx) checkPreconditions(ctx context.Context, st *ImmuStore) erro
 
 	for _, txSnap := range tx.snapshots {
 		if txSnap.Ts() > st.LastPrecommittedTxID() {
-			// read-write transactions when no other transaction was committed won't be invalidated
-			return nil
+			// reads made through this snapshot won't be invalidated as no other transaction was committed
+			// since it was taken, but the snapshots of the other indexes may be older and must be validated
+			continue
 		}
 
 		// current snapshot is fetched without flushing
